@@ -423,5 +423,14 @@ def result_is_used(b, local):
                 if want_variant == "Cancelled" or names == ["Err"]:
                     taken = True
         if not taken:
+            # `match r { Ok(v) => v, Err(_) => unreachable!(..) }` asserts instead of swallowing: the Err edge cannot return
+            rets = set(b.return_blocks())
+            for c in q.conds(b, ()):
+                if c.kind == "discr" and (c.adt or "").endswith("result::Result") and c.target("Err") is not None:
+                    sp = c.src_place
+                    from_local = (sp is not None and sp.get("l") == local) or \
+                        (c.src and c.src.get("k") == "call" and b.blocks[c.src["bb"]]["term"]["dest"].get("l") == local)
+                    if from_local and not (rets & b.reachable([c.target("Err")])):
+                        return True, "asserted:match-arm-diverges"
             return False, "result is matched but the %s payload is never taken out: cancellation is swallowed" % want_variant
     return True, ",".join(sorted(set(how)))
